@@ -136,60 +136,7 @@ func runC09(r *Run) {
 			"ok(internal/jws.sign(?h, $2, $3))", "cmp(<result>.ProtectedHeaders == ?h)", "cmp(<result>.joseHeaders == ?h)", "cmp(<result>.Payload == $2)",
 			"cmp(<result>.signature == internal/jws.sign(?h, $2, $3))")
 	}
-	// --- tables
-	vt := r.curveTableVerifier(P)
-	want := map[string]curveRow{
-		"P-256":     {"32", "5", "crypto/elliptic.P256()"},
-		"P-384":     {"48", "6", "crypto/elliptic.P384()"},
-		"P-521":     {"66", "7", "crypto/elliptic.P521()"},
-		"secp256k1": {"32", "5", "github.com/btcsuite/btcd/btcec.S256()"},
-	}
-	var names []string
-	for k := range want {
-		names = append(names, k)
-	}
-	sort.Strings(names)
-	for _, k := range names {
-		got, ok := vt[k]
-		r.R.Check(ok && got == want[k], P+".tables.verifier."+k, "E7 table (RFC 7518 §3.4): curve → (coordinate size, hash, curve)", "internal/jws.parseEllipticCurve case "+k, "pkg/internal/jws/signature.go",
-			"a wrong size or hash for a curve makes genuine signatures fail or wrongly sized ones pass the length check", fmt.Sprintf("%+v", got), fmt.Sprintf("found %+v, expected %+v", got, want[k]))
-	}
-	extra := []string{}
-	for k, row := range vt {
-		if _, ok := want[k]; !ok && row.KeySize != "nil" && k != "" {
-			extra = append(extra, k)
-		}
-	}
-	r.R.Check(len(extra) == 0, P+".tables.verifier.extra", "E7: no curve accepted beyond the four supported ones", "internal/jws.parseEllipticCurve", "pkg/internal/jws/signature.go", "an extra curve without signer/JWK support is an untested acceptance path", "none", strings.Join(extra, ","))
-	st, prob := r.hasherTableSigner(P)
-	okS := prob == ""
-	var det []string
-	for _, k := range names {
-		h, ok := st[want[k].Ctor]
-		if !ok {
-			// the default branch covers it only if the default hash is the right one
-			h = st["default"]
-		}
-		if h != want[k].Hash {
-			okS = false
-			det = append(det, fmt.Sprintf("%s signs with hash %s, verifier uses %s", k, h, want[k].Hash))
-		}
-	}
-	r.R.Check(okS, P+".tables.signer", "E7 sibling agreement: ecsigner.getHasher selects, per curve, the hash the verifier uses", "util/ecsigner.getHasher", "pkg/util/ecsigner/signer.go",
-		"if signer and verifier disagree on the digest for a curve, every signature on that curve is rejected at resolution although intake accepted the request", fmt.Sprint(st), strings.Join(det, "; ")+" "+prob+fmt.Sprintf(" table=%v", st))
-	// signer pads r and s to the same size = ceil(bits/8)
-	if f := r.fn(P, pkgECSigner, "Signer.Sign"); f != nil {
-		calls := r.callsIn(f, "copyPadded")
-		ok := len(calls) == 2 && calls[0].Common().Args[1] == calls[1].Common().Args[1]
-		ff := r.E.Facts(f, core.Ctx{})
-		det := ""
-		if len(calls) == 2 {
-			t0, t1 := ff.TB.Of(calls[0].Common().Args[0]).String(), ff.TB.Of(calls[1].Common().Args[0]).String()
-			det = t0 + " | " + t1
-			ok = ok && strings.Contains(t0, "Int).Bytes(") && strings.Contains(t1, "Int).Bytes(") && t0 != t1
-		}
-		r.R.Check(ok, P+".tables.signer.pad", "E13: signature = pad(r, k) ‖ pad(s, k) with one k", core.FuncName(f), r.where(f), "unequal or missing padding yields signatures the fixed-size verifier rejects for ~1/128 of keys/messages", det, "padding calls: "+det)
-	}
+	r.checkCurveTables(P)
 	// --- size
 	if f := r.fn(P, pkgIJWS, "verifyECSignature"); f != nil {
 		b, ok := r.requireSucc(P+".size.ec", "a truncated or extended ECDSA signature must be rejected", f, core.Ctx{}, "",
@@ -247,4 +194,62 @@ func runC09(r *Run) {
 		"internal/jws.VerifySignature":   r.fn(P, pkgIJWS, "VerifySignature"),
 		"internal/jws.JWK.UnmarshalJSON": r.fn(P, pkgIJWS, "JWK.UnmarshalJSON"),
 	}, 15)
+}
+
+// checkCurveTables: curve ↔ size ↔ hash tables and signer/verifier agreement (shared by C09 and C11).
+func (r *Run) checkCurveTables(P string) {
+	// --- tables
+	vt := r.curveTableVerifier(P)
+	want := map[string]curveRow{
+		"P-256":     {"32", "5", "crypto/elliptic.P256()"},
+		"P-384":     {"48", "6", "crypto/elliptic.P384()"},
+		"P-521":     {"66", "7", "crypto/elliptic.P521()"},
+		"secp256k1": {"32", "5", "github.com/btcsuite/btcd/btcec.S256()"},
+	}
+	var names []string
+	for k := range want {
+		names = append(names, k)
+	}
+	sort.Strings(names)
+	for _, k := range names {
+		got, ok := vt[k]
+		r.R.Check(ok && got == want[k], P+".tables.verifier."+k, "E7 table (RFC 7518 §3.4): curve → (coordinate size, hash, curve)", "internal/jws.parseEllipticCurve case "+k, "pkg/internal/jws/signature.go",
+			"a wrong size or hash for a curve makes genuine signatures fail or wrongly sized ones pass the length check", fmt.Sprintf("%+v", got), fmt.Sprintf("found %+v, expected %+v", got, want[k]))
+	}
+	extra := []string{}
+	for k, row := range vt {
+		if _, ok := want[k]; !ok && row.KeySize != "nil" && k != "" {
+			extra = append(extra, k)
+		}
+	}
+	r.R.Check(len(extra) == 0, P+".tables.verifier.extra", "E7: no curve accepted beyond the four supported ones", "internal/jws.parseEllipticCurve", "pkg/internal/jws/signature.go", "an extra curve without signer/JWK support is an untested acceptance path", "none", strings.Join(extra, ","))
+	st, prob := r.hasherTableSigner(P)
+	okS := prob == ""
+	var det []string
+	for _, k := range names {
+		h, ok := st[want[k].Ctor]
+		if !ok {
+			// the default branch covers it only if the default hash is the right one
+			h = st["default"]
+		}
+		if h != want[k].Hash {
+			okS = false
+			det = append(det, fmt.Sprintf("%s signs with hash %s, verifier uses %s", k, h, want[k].Hash))
+		}
+	}
+	r.R.Check(okS, P+".tables.signer", "E7 sibling agreement: ecsigner.getHasher selects, per curve, the hash the verifier uses", "util/ecsigner.getHasher", "pkg/util/ecsigner/signer.go",
+		"if signer and verifier disagree on the digest for a curve, every signature on that curve is rejected at resolution although intake accepted the request", fmt.Sprint(st), strings.Join(det, "; ")+" "+prob+fmt.Sprintf(" table=%v", st))
+	// signer pads r and s to the same size = ceil(bits/8)
+	if f := r.fn(P, pkgECSigner, "Signer.Sign"); f != nil {
+		calls := r.callsIn(f, "copyPadded")
+		ok := len(calls) == 2 && calls[0].Common().Args[1] == calls[1].Common().Args[1]
+		ff := r.E.Facts(f, core.Ctx{})
+		det := ""
+		if len(calls) == 2 {
+			t0, t1 := ff.TB.Of(calls[0].Common().Args[0]).String(), ff.TB.Of(calls[1].Common().Args[0]).String()
+			det = t0 + " | " + t1
+			ok = ok && strings.Contains(t0, "Int).Bytes(") && strings.Contains(t1, "Int).Bytes(") && t0 != t1
+		}
+		r.R.Check(ok, P+".tables.signer.pad", "E13: signature = pad(r, k) ‖ pad(s, k) with one k", core.FuncName(f), r.where(f), "unequal or missing padding yields signatures the fixed-size verifier rejects for ~1/128 of keys/messages", det, "padding calls: "+det)
+	}
 }
